@@ -19,7 +19,7 @@ pub fn meta() -> Meta {
     Meta {
         id: "C16",
         level: "exploration",
-        rule: "string-level pack/unpack/reverse-complement model against the real UInt primitives: (a) every string of length k-1 and k for k=5,7,9,11 (thorough: 13, 15) in both widths; (b) for all 30 k and both widths (u64 for k<=31) every string within Hamming distance 2 of the four homopolymers and two mixed backgrounds, at lengths k-1 and k; (c) rolling: for every k a repeat-free sequence of length 4k with an N substituted at every position in turn, records of exactly k-1, k and k+1 letters and of k letters next to an N (each window is also rebuilt from scratch as a record of exactly k letters), plus the k=5 restart family L+N+R: at every window the rolled (k-mer, middle base, strand flag, middle position, hash) equals the model's canonical form and a fresh SplitKmer/NtHashIterator on that window, both strand modes, with and without the read hash; (d) hash(k-mer) = hash(reverse complement) in two-strand mode. Non-trivial = every evaluated string/window (all carry an expected value); distinct outcomes = distinct expected packed values.".into(),
+        rule: "string-level pack/unpack/reverse-complement model against the real UInt primitives: (a) every string of length k-1 and k for k=5,7,9,11 (thorough: 13, 15) in both widths; (b) for all 30 k and both widths (u64 for k<=31) every string within Hamming distance 2 of the four homopolymers and two mixed backgrounds, at lengths k-1 and k; (c) rolling: for every k a repeat-free sequence of length 4k with an N substituted at every position in turn, runs of N of length 2, k-1, k, k+1, k+2, 2k+1 inside the sequence and at its start, records of exactly k-1, k and k+1 letters and of k letters next to an N (each window is also rebuilt from scratch as a record of exactly k letters), plus the k=5 restart family L+N+R: at every window the rolled (k-mer, middle base, strand flag, middle position, hash) equals the model's canonical form and a fresh SplitKmer/NtHashIterator on that window, both strand modes, with and without the read hash; (d) hash(k-mer) = hash(reverse complement) in two-strand mode. Non-trivial = every evaluated string/window (all carry an expected value); distinct outcomes = distinct expected packed values.".into(),
         assumptions: vec!["the independent packing convention A=0,C=1,T=2,G=3, first letter most significant, is the documented one".into()],
         exhaustive_when_uncapped: true,
     }
@@ -293,6 +293,14 @@ pub fn run(ctx: &Ctx, rep: &mut Report) {
             seqs.push(base[..k - 1].to_vec());
             seqs.push([b"N".as_slice(), &base[2..k + 2]].concat());
             seqs.push([&base[..k], b"N".as_slice()].concat());
+            // runs of N of length 2, k-1, k, k+1, k+2 and 2k+1 inside the sequence and at its start
+            for r in [2usize, k - 1, k, k + 1, k + 2, 2 * k + 1] {
+                let run = vec![b'N'; r];
+                seqs.push([&base[..k + 2], run.as_slice(), &base[k + 2..]].concat());
+                seqs.push([run.as_slice(), &base[..2 * k]].concat());
+                let mixed: Vec<u8> = (0..r).map(|i| if i % 2 == 0 { b'N' } else { b'n' }).collect();
+                seqs.push([&base[..k], mixed.as_slice(), &base[k..2 * k + 1], b"N".as_slice()].concat());
+            }
             // a lower-case copy and two adjacent Ns
             seqs.push(base.iter().map(|c| c.to_ascii_lowercase()).collect());
             let mut s2 = base.clone();
